@@ -28,6 +28,7 @@ import Hw.Attr.DiffCommute
 import Hw.Attr.DiffBuildApply
 import Hw.Io.XmlDiffLemmas
 import Hw.Attr.DiffXmlLink
+import Hw.Io.XmlDiffPerm
 namespace Hw.Props.C16
 open Hw.Diff
 variable {σ : Type} [DecidableEq σ]
@@ -376,7 +377,16 @@ theorem C16_diffxml_build_ret1_einval (ref : Option Bytes) (A B : Topo Bytes) (h
     exportDoc ref (build A B).2 = .einval := by
   rw [C16_diffxml_export_too_complex, build_tc, h1]; decide
 
+/-- the importer does not depend on the ORDER of the attributes of an element as long as no attribute name is repeated
+    (the exporter's order is one of many accepted ones) -/
+theorem C16_diffxml_import_attr_order {a b : AttrL} (hp : a.Perm b) (hn : (a.map (·.1)).Nodup) :
+    importOne a = importOne b :=
+  importOne_perm hp hn
+
 /-! non-vacuity and concrete behaviour of the importer model -/
+def goodEl : Bytes × AttrL := (nmDiff, [(nmType, str "0"), (nmDepth, str "1"), (nmIndex, str "2"), (nmAType, str "1"),
+  (nmOld, str "a"), (nmNew, str "b")])
+def goodE : E := .objAttr (1, 2) (.name (some (str "a")) (some (str "b")))
 
 /-- a list inside the hypotheses of the round trip: escaping-heavy strings, an empty string, UINT64_MAX, a special depth -/
 example :
@@ -415,14 +425,17 @@ example :
   rw [this] at he
   simp at he
   rcases he with rfl | rfl <;> simp [Entry.key, KeyInRange]
+/-- C16_diffxml_import_attr_order applies to the exporter's own attribute lists (no repeated name) ... -/
+example : ([(nmType, str "0"), (nmDepth, str "1"), (nmIndex, str "2")] : AttrL).Perm [(nmDepth, str "1"), (nmType, str "0"), (nmIndex, str "2")] ∧
+    (([(nmType, str "0"), (nmDepth, str "1"), (nmIndex, str "2")] : AttrL).map (·.1)).Nodup :=
+  ⟨List.Perm.swap _ _ _, by decide⟩
+/-- ... and the hypothesis is needed: with a repeated name the last occurrence wins -/
+example : importOne (goodEl.2 ++ [(nmDepth, str "-5")]) ≠ importOne ((nmDepth, str "-5") :: goodEl.2) := by decide +kernel
 /-- TOO_COMPLEX anywhere: EINVAL -/
 example : exportDoc none [.objAttr (0, 0) (.size 1#64 2#64), .tooComplex (0, 0)] = .einval := by decide +kernel
 /-- what the importer makes of damaged elements: unknown attribute => -1 and the already linked entry is freed;
     missing mandatory attribute / other type number => ignored; a repeated attribute: the last one wins (nolibxml) or the
     document is rejected (libxml2); `atoi("4294967296") = 0` is OBJ_ATTR; hex / octal SIZE values -/
-def goodEl : Bytes × AttrL := (nmDiff, [(nmType, str "0"), (nmDepth, str "1"), (nmIndex, str "2"), (nmAType, str "1"),
-  (nmOld, str "a"), (nmNew, str "b")])
-def goodE : E := .objAttr (1, 2) (.name (some (str "a")) (some (str "b")))
 example : importDoc .nolibxml ⟨[], [goodEl, (nmDiff, [(str "foo", str "1")])]⟩ = ⟨-1, [], none, [goodE]⟩ := by decide +kernel
 example : importDoc .nolibxml ⟨[], [(nmDiff, [(nmType, str "0"), (nmDepth, str "1")]), goodEl, (nmDiff, [(nmType, str "1")]),
     (nmDiff, [])]⟩ = ⟨0, [goodE], none, []⟩ := by decide +kernel
